@@ -451,6 +451,8 @@ def run(ctx):
     r8_one_rewrite_per_update(ctx, prog)
     from rules import c09
     c09.r6_commit_last(ctx, prog, rule_id='C16.R9')
+    from rules import c05
+    c05.r3_commit(ctx, prog, rule_id='C16.R10')
 
 
 MUTANTS = [
